@@ -80,8 +80,13 @@ def do_mutant(m):
         shutil.rmtree(d, ignore_errors=True)
 
 
+ONLY_CHECKS = None
+
+
 def do_keep(k):
     kid, fil, old, new, pids, desc = k
+    if ONLY_CHECKS:
+        pids = [p for p in pids if p in ONLY_CHECKS]
     d, err = make_copy(fil, old, new)
     if d is None:
         return {'id': kid, 'ok': False, 'why': 'cannot apply: ' + err}
@@ -104,7 +109,10 @@ def main():
     ap.add_argument('--only', default='')
     ap.add_argument('--jobs', type=int, default=6)
     ap.add_argument('--json', default=None)
+    ap.add_argument('--checks', default='', help='run only these checks on the behaviour-preserving variants (default: every check a variant lists)')
     a = ap.parse_args()
+    global ONLY_CHECKS
+    ONLY_CHECKS = set(x for x in a.checks.split(',') if x) or None
     only = set(x for x in a.only.split(',') if x)
     ms = [m for m in MUTANTS if not only or m[0] in only]
     ks = [k for k in KEEP if not only or k[0] in only]
